@@ -20,7 +20,7 @@ pub struct Case {
 
 pub const F9_SIG: &str = "C05/rto-path-first-transmission";
 
-pub fn oracle(case: &SpCase, res: &SpResult) -> (Option<(String, String)>, Vec<&'static str>, bool, u64) {
+pub fn oracle(case: &SpCase, res: &SpResult, soft: &mut Vec<(String, String)>) -> (Option<(String, String)>, Vec<&'static str>, bool, u64) {
     let mut labels: BTreeSet<&'static str> = BTreeSet::new();
     let mut fp = Fp::default();
     let first = res.sock_first_seq.unwrap_or(0);
@@ -64,6 +64,7 @@ pub fn oracle(case: &SpCase, res: &SpResult) -> (Option<(String, String)>, Vec<&
                 let timer_driven = !ambiguous && !app_write_times.contains(&r.t_us);
                 let sig = |generic: &str| if timer_driven { F9_SIG.to_string() } else { format!("sp/{generic}") };
                 let highest_before = obs.highest;
+                let mut loss_seen_next = false;
                 let (k, kind) = obs.on_tx_data(r.t_us, p);
                 let states: Vec<AckState> = if ambiguous { vec![obs.st.clone(), obs.prev.clone()] } else { vec![obs.st.clone()] };
                 // clause (d): after an RTO retransmission nothing else until an advancing ack
@@ -82,15 +83,21 @@ pub fn oracle(case: &SpCase, res: &SpResult) -> (Option<(String, String)>, Vec<&
                 match kind {
                     TxKind::First => {
                         first_tx_count += 1;
+                        if timer_driven {
+                            // sent by the retransmission-timer path (see F9): for the implementation
+                            // this was a timeout, i.e. a loss event, whatever the oracle thinks of it
+                            loss_seen_next = true;
+                            labels.insert("first_tx_by_timer");
+                        }
                         // (b) zero window: no new payload at all
                         if states.iter().all(|s| s.wnd == 0) {
-                            return (Some((sig("new-payload-at-zero-window"), format!("log #{}: first transmission of seq {} ({} bytes) while the last window processed is 0", r.idx, p.seq, p.payload.len()))), vec![], false, 0);
+                            { let d = format!("log #{}: first transmission of seq {} ({} bytes) while the last window processed is 0", r.idx, p.seq, p.payload.len()); if timer_driven { if soft.len() < 4 { soft.push((F9_SIG.to_string(), d)); } } else { return (Some((sig("new-payload-at-zero-window"), d)), vec![], false, 0); } }
                         }
                         // (a) outside possible loss recovery outstanding <= last advertised window
                         let viol_a = states.iter().all(|s| !s.poss_recovery && !obs.prev.poss_recovery && obs.outstanding(s, k) > s.wnd as u64);
                         if viol_a {
                             let s = &states[0];
-                            return (Some((sig("outstanding-exceeds-window"), format!("log #{}: after the first transmission of seq {} ({} bytes) {} bytes are outstanding but the window last advertised by the peer is {}", r.idx, p.seq, p.payload.len(), obs.outstanding(s, k), s.wnd))), vec![], false, 0);
+                            { let d = format!("log #{}: after the first transmission of seq {} ({} bytes) {} bytes are outstanding but the window last advertised by the peer is {}", r.idx, p.seq, p.payload.len(), obs.outstanding(s, k), s.wnd); if timer_driven { if soft.len() < 4 { soft.push((F9_SIG.to_string(), d)); } } else { return (Some((sig("outstanding-exceeds-window"), d)), vec![], false, 0); } }
                         }
                         // (c) before the first loss event: outstanding <= 2*mss + acked bytes
                         if !loss_seen {
@@ -98,7 +105,7 @@ pub fn oracle(case: &SpCase, res: &SpResult) -> (Option<(String, String)>, Vec<&
                             let viol_c = states.iter().all(|s| obs.outstanding(s, k) > 2 * s.mss_now as u64 + s.acked_bytes && obs.segs.range((s.cum + 1)..=k).count() > 2);
                             if viol_c {
                                 let s = &states[0];
-                                return (Some((sig("slow-start-exceeded"), format!("log #{}: before any loss event {} bytes are outstanding after sending seq {}, more than 2*mss ({}) + acknowledged bytes ({})", r.idx, obs.outstanding(s, k), p.seq, s.mss_now, s.acked_bytes))), vec![], false, 0);
+                                { let d = format!("log #{}: before any loss event {} bytes are outstanding after sending seq {}, more than 2*mss ({}) + acknowledged bytes ({})", r.idx, obs.outstanding(s, k), p.seq, s.mss_now, s.acked_bytes); if timer_driven { if soft.len() < 4 { soft.push((F9_SIG.to_string(), d)); } } else { return (Some((sig("slow-start-exceeded"), d)), vec![], false, 0); } }
                             }
                             labels.insert("slow_start_checked");
                         }
@@ -119,6 +126,7 @@ pub fn oracle(case: &SpCase, res: &SpResult) -> (Option<(String, String)>, Vec<&
                         }
                     }
                 }
+                if loss_seen_next { loss_seen = true; }
                 fp.add(((k as u64) << 20) ^ (p.payload.len() as u64) ^ ((obs.st.wnd as u64).min(1 << 20) << 40));
             }
         }
@@ -142,11 +150,13 @@ impl CheckDef for Sp {
         if !res.established {
             return Outcome::discard(format!("handshake did not complete: {:?}", res.handshake_err));
         }
-        let (v, labels, nontrivial, fp) = oracle(&case.sp, &res);
+        let mut soft = vec![];
+        let (v, labels, nontrivial, fp) = oracle(&case.sp, &res, &mut soft);
         if let Some((sig, detail)) = v {
             return Outcome::violation(sig, detail);
         }
         let mut o = Outcome::pass();
+        o.soft = soft;
         o.labels = labels;
         o.nontrivial = nontrivial;
         o.fingerprint = fp;
